@@ -352,9 +352,18 @@ def _string_new(ex, args, f):
 def _from_utf8(ex, args, f):
     v = deref_all(ex, args[0])
     bs = as_bytes(ex, v)
+    conc = [z3.simplify(b) if z3.is_expr(b) else b for b in bs]
+    if all(isinstance(b, int) or z3.is_bv_value(b) for b in conc):
+        # concrete bytes: the real UTF-8 validity decision
+        raw = bytes(b if isinstance(b, int) else b.as_long() for b in conc)
+        try:
+            raw.decode("utf-8")
+        except UnicodeDecodeError:
+            return err(Opaque("FromUtf8Error"))
+        return ok(Str(bs, owned=True))
     for b in bs:
         if ex.decide(z3.UGE(b, 0x80)):
-            raise Unsupported("non-ASCII byte in String::from_utf8 (outside the bound)")
+            raise Unsupported("symbolic non-ASCII byte in String::from_utf8 (outside the bound)")
     return ok(Str(bs, owned=True))
 
 
@@ -2421,3 +2430,68 @@ I["bzip2::bufread::BzDecoder::new"] = _decoder_new("bzip2")
 I["zstd::Decoder::new"] = _decoder_new("zstd")
 I["zstd::stream::Decoder::new"] = _decoder_new("zstd")
 I["zstd::stream::read::Decoder::new"] = _decoder_new("zstd")
+
+
+@intr("decode", "hex::decode")
+def _hex_decode(ex, args, f):
+    """hex::decode: an odd length or a character outside [0-9a-fA-F] is an error; both letter cases are accepted"""
+    bs = as_bytes(ex, args[0])
+    if len(bs) % 2:
+        return err(Opaque("FromHexError::OddLength"))
+    out = []
+    for i in range(0, len(bs), 2):
+        pair = []
+        for c in (bs[i], bs[i + 1]):
+            isd = z3.And(z3.UGE(c, 0x30), z3.ULE(c, 0x39))
+            isl = z3.And(z3.UGE(c, 0x61), z3.ULE(c, 0x66))
+            isu = z3.And(z3.UGE(c, 0x41), z3.ULE(c, 0x46))
+            if not ex.decide(z3.Or(isd, isl, isu)):
+                return err(Opaque("FromHexError::InvalidHexCharacter"))
+            pair.append(z3.If(isd, c - 0x30, z3.If(isl, c - 0x57, c - 0x37)))
+        out.append(Int((pair[0] << 4) | pair[1], "u8"))
+    return ok(VecV(out))
+
+
+# ---- Vec::drain(..), collecting into maps, into_values ---------------------------------------------------------------------------------
+@intr("Vec::drain", "Vec::<T>::drain")
+def _vec_drain(ex, args, f):
+    if "RangeFull" not in f:
+        raise Unsupported("Vec::drain over a partial range")
+    v = deref_all(ex, args[0])
+    items = list(v.items)
+    del v.items[:]
+    return ValIter(items)
+
+
+@intr("<_ as FromIterator>::from_iter", "<_ as Iterator>::collect")
+def _from_iter_maps(ex, args, f, _prev=I["<_ as Iterator>::collect"]):
+    m = re.search(r"::collect::<(?:std::collections::)?(HashMap|BTreeMap|HashSet|BTreeSet)<", f) or re.search(r"^<(?:std::collections::)?(HashMap|BTreeMap|HashSet|BTreeSet)<.* as (?:std::iter::)?FromIterator", f.strip())
+    if not m:
+        return _prev(ex, args, f)
+    it = deref_all(ex, args[0])
+    out = HashV() if m.group(1).startswith("Hash") else MapV()
+    n = 0
+    while True:
+        x = _iter_next(ex, it, f)
+        if x.variant == "None":
+            break
+        item = deref_all(ex, x.fields[0]) if m.group(1).endswith("Map") else x.fields[0]
+        key, val = (item.items[0], item.items[1]) if m.group(1).endswith("Map") else (item, UNIT)
+        i = _find_key(ex, out, key)
+        if i is None:
+            out.keys.append(key)
+            out.vals.append(val)
+        else:
+            out.vals[i] = val                 # a later item with an equal key replaces the value, the key stays
+        n += 1
+        if n > 4096:
+            raise Unsupported("collect: too many items")
+    return out
+
+
+@intr("HashMap::into_values", "HashMap::<K, V, S>::into_values", "HashMap::<K, V>::into_values", "BTreeMap::into_values", "BTreeMap::<K, V>::into_values",
+      "HashMap::values", "HashMap::<K, V, S>::values", "BTreeMap::values", "BTreeMap::<K, V>::values")
+def _map_into_values(ex, args, f):
+    m = deref_all(ex, args[0])
+    by_ref = "into_values" not in f
+    return ValIter([(Ref(Cell(m.vals[i])) if by_ref else m.vals[i]) for i in _map_order(ex, m)])
